@@ -111,6 +111,8 @@ var matchExpr = map[string]string{
 	"warn":        "level() >= WARNING",
 	"critchanged": "level() == CRITICAL AND changed()",
 	"never":       "level() > CRITICAL",
+	"tagA":        `"host" == 'a'`,
+	"tagAwarn":    `"host" == 'a' AND level() >= WARNING`,
 }
 
 type hstate struct {
@@ -120,7 +122,13 @@ type hstate struct {
 }
 
 // Tr is one trace in progress.
+type retired struct {
+	rec *rt.RecHandler
+	n   int // events it had seen when it was retired
+}
+
 type Tr struct {
+	retired []retired
 	svc    *Svc
 	t      *rt.Trace
 	sfx    string
@@ -246,6 +254,9 @@ func (tr *Tr) Deregister(h string) {
 	}
 	tr.quiesce()
 	delete(tr.hs, h)
+	if st.rec != nil {
+		tr.retired = append(tr.retired, retired{st.rec, st.rec.Len()})
+	}
 	tr.t.Event("Deregister", rt.M{"h": h, "seen": tr.seenOf(st)})
 }
 
@@ -272,15 +283,60 @@ func (tr *Tr) Replace(h string, c Cfg) {
 	tr.t.Event("Replace", f)
 }
 
-func (tr *Tr) Collect(topic, id string, lvl int, k int) {
+func (tr *Tr) Collect(topic, id string, lvl int, k int) { tr.CollectTag(topic, id, lvl, k, "none") }
+
+// CollectTag collects an event that carries tag host=<tag> ("none": no tag at all).
+func (tr *Tr) CollectTag(topic, id string, lvl int, k int, tag string) {
 	ev := alert.Event{Topic: tr.real(topic), State: alert.EventState{ID: id, Level: alert.Level(lvl),
 		Time: rt.DefaultTime.T(k), Message: fmt.Sprintf("m%d", k)}}
+	f := rt.M{"topic": topic, "id": id, "lvl": lvl}
+	if tag != "none" {
+		ev.Data.Tags = map[string]string{"host": tag}
+		f["tag"] = tag
+	}
 	if err := tr.svc.S.Collect(ev); err != nil {
 		rt.Fatalf("c09: Collect: %v", err)
 	}
-	tr.t.Event("Collect", rt.M{"topic": topic, "id": id, "lvl": lvl})
+	tr.t.Event("Collect", f)
 	tr.quiesce()
 	tr.Obs()
+}
+
+// Rename = UpdateHandlerSpec with a NEW id (spec-based handlers only): in model terms the old
+// handler is removed and the new one registered; the old recorder is kept as "retired" and must
+// never be handed another event.
+func (tr *Tr) Rename(old, new string, c Cfg) {
+	st := tr.hs[old]
+	if st.anon || (c.Kind == "rec" && c.Match == "none") {
+		tr.Deregister(old)
+		tr.Register(new, c)
+		return
+	}
+	if err := tr.svc.S.UpdateHandlerSpec(tr.spec(old, st.cfg), tr.spec(new, c)); err != nil {
+		rt.Fatalf("c09: UpdateHandlerSpec(rename): %v", err)
+	}
+	tr.quiesce()
+	ns := &hstate{cfg: c}
+	if c.Kind == "rec" {
+		ns.rec = tr.svc.talk.last
+	}
+	tr.t.Event("Deregister", rt.M{"h": old, "seen": tr.seenOf(st)})
+	if st.rec != nil {
+		tr.retired = append(tr.retired, retired{st.rec, st.rec.Len()})
+	}
+	delete(tr.hs, old)
+	tr.hs[new] = ns
+	tr.t.Event("Register", cfgFields(new, c))
+}
+
+// CloseRestore closes a topic (CloseTopic) - the next Collect on it restores it from the store and
+// re-registers the handlers the service has on record for it.  Used with events that are all non-OK
+// and a persisting service, so that the restored state equals the state before the close.
+func (tr *Tr) CloseRestore(topic string) {
+	if err := tr.svc.S.CloseTopic(tr.real(topic)); err != nil {
+		rt.Fatalf("c09: CloseTopic: %v", err)
+	}
+	tr.t.Event("CloseRestore", rt.M{"topic": topic})
 }
 
 // Obs records everything the API reports about both topics and what every recorder has seen.
@@ -329,7 +385,11 @@ func (tr *Tr) Obs() {
 			seen[h] = tr.seenOf(st)
 		}
 	}
-	tr.t.Event("Obs", rt.M{"state": state, "seen": seen})
+	late := 0
+	for _, r := range tr.retired {
+		late += r.rec.Len() - r.n
+	}
+	tr.t.Event("Obs", rt.M{"state": state, "seen": seen, "retired": late})
 }
 
 // End tears the trace down (publishers first so nothing is in flight).
